@@ -24,6 +24,9 @@ import NeumannModel.RaftWal.Model
     save | load <k> | drop_slots  snapshots of (node, ghost), numbered from 0
     frame <hexpayload>          → the record bytes `write_entry_bytes` produces
     sat <hexfile>               obligations evaluated on recover(file)                    → true|false|err checksum
+    wal_new <max> <maxrot>      RaftWal::open_with_config on a fresh path (max_size_bytes, max_rotated_files) → ok
+    wal_append <hexpayload>     RaftWal::append (size check, rotation)   → cur=<hex|-> rot=<hex;hex;…|->
+    wal_reopen                  drop + open_with_config on the same path (tail repair)    → cur=… rot=…
 -/
 open Neumann Neumann.Proto Neumann.RaftWal
 
@@ -32,6 +35,9 @@ structure DState where
   node : Node := { id := 0 }
   ghost : Ghost := {}
   slots : List (Node × Ghost) := []
+  wal : WalFiles := {}
+  walMax : Nat := 0
+  walRot : Nat := 0
 
 def junkTag : List Nat := [999999, 0, 0, 0]
 
@@ -150,6 +156,11 @@ def parseEvent : List String → Option Event
       pure (.installSnapshot (← li.toNat?) (← lt.toNat?) (← parsePairs es))
   | _ => none
 
+def hexOrDash (b : List Nat) : String := if b.isEmpty then "-" else hex b
+
+def showWal (w : WalFiles) : String :=
+  s!"cur={hexOrDash w.cur} rot={if w.rotated.isEmpty then "-" else ";".intercalate (w.rotated.map hexOrDash)}"
+
 def walStep (st : DState) (line : String) : DState × String :=
   let bad := (st, "bad-op")
   let crc := Crc32.crc32
@@ -205,6 +216,17 @@ def walStep (st : DState) (line : String) : DState × String :=
          | .checksumError => (st, "err checksum")
          | .ok s _ _ => (st, toString (SatB s st.ghost)))
       | none => bad
+  | ["wal_new", mx, mr] => match mx.toNat?, mr.toNat? with
+      | some mx, some mr => ({ st with wal := {}, walMax := mx, walRot := mr }, "ok")
+      | _, _ => bad
+  | ["wal_append", h] => match unhex h with
+      | some p =>
+        let w := walAppend crc st.walMax st.walRot st.wal p
+        ({ st with wal := w }, showWal w)
+      | none => bad
+  | ["wal_reopen"] =>
+      let w := { st.wal with cur := FramedLog.openRepair st.wal.cur }
+      ({ st with wal := w }, showWal w)
   | _ => bad
 
 def main : IO Unit := run walStep {}
